@@ -24,12 +24,12 @@ import (
 // ---------------------------------------------------------------- operation registry
 
 type opDef struct {
-	name    string          // model name
-	wrapper string          // suffix of the Go wrapper main.op_<wrapper>
-	pkt     bool            // runs in the single packet-loop goroutine
-	once    bool            // called once in the middle of the run (Close)
+	name    string // model name
+	wrapper string // suffix of the Go wrapper main.op_<wrapper>
+	pkt     bool   // runs in the single packet-loop goroutine
+	once    bool   // called once in the middle of the run (Close)
 	run     func(c *ctx, g *gctx)
-	needs   string          // handler needed: "", "arp", "icmp6", "dhcp4", "dns"
+	needs   string // handler needed: "", "arp", "icmp6", "dhcp4", "dns"
 }
 
 var opDefs []opDef
@@ -201,7 +201,7 @@ func anyIP(g *gctx) netip.Addr {
 }
 
 //go:noinline
-func op_ParseFast(c *ctx, g *gctx) {
+func body_ParseFast(c *ctx, g *gctx) {
 	f, err := c.s.Parse(c.fast[g.rng.Intn(len(c.fast))])
 	if err == nil {
 		g.last, g.have = f, true
@@ -209,7 +209,7 @@ func op_ParseFast(c *ctx, g *gctx) {
 }
 
 //go:noinline
-func op_ParseSlow(c *ctx, g *gctx) {
+func body_ParseSlow(c *ctx, g *gctx) {
 	var b []byte
 	if g.rng.Chance(50) {
 		// a new address, several per MAC
@@ -228,7 +228,7 @@ func op_ParseSlow(c *ctx, g *gctx) {
 }
 
 //go:noinline
-func op_Notify(c *ctx, g *gctx) {
+func body_Notify(c *ctx, g *gctx) {
 	if g.have {
 		c.s.Notify(g.last)
 		return
@@ -237,10 +237,10 @@ func op_Notify(c *ctx, g *gctx) {
 }
 
 //go:noinline
-func op_NotifyDhcp(c *ctx, g *gctx) { c.s.Notify(c.dhcpFrm) }
+func body_NotifyDhcp(c *ctx, g *gctx) { c.s.Notify(c.dhcpFrm) }
 
 //go:noinline
-func op_Purge(c *ctx, g *gctx) {
+func body_Purge(c *ctx, g *gctx) {
 	now := time.Now()
 	switch g.rng.Intn(4) {
 	case 1:
@@ -252,47 +252,47 @@ func op_Purge(c *ctx, g *gctx) {
 }
 
 //go:noinline
-func op_FindIP(c *ctx, g *gctx) { _ = c.s.FindIP(anyIP(g)) }
+func body_FindIP(c *ctx, g *gctx) { _ = c.s.FindIP(anyIP(g)) }
 
 //go:noinline
-func op_GetHosts(c *ctx, g *gctx) { _ = c.s.GetHosts() }
+func body_GetHosts(c *ctx, g *gctx) { _ = c.s.GetHosts() }
 
 //go:noinline
-func op_IPAddrs(c *ctx, g *gctx) { _ = c.s.IPAddrs(anyMAC(g)) }
+func body_IPAddrs(c *ctx, g *gctx) { _ = c.s.IPAddrs(anyMAC(g)) }
 
 //go:noinline
-func op_FindByMAC(c *ctx, g *gctx) { _ = c.s.FindByMAC(anyMAC(g)) }
+func body_FindByMAC(c *ctx, g *gctx) { _ = c.s.FindByMAC(anyMAC(g)) }
 
 //go:noinline
-func op_FindMACEntry(c *ctx, g *gctx) { _ = c.s.FindMACEntry(anyMAC(g)) }
+func body_FindMACEntry(c *ctx, g *gctx) { _ = c.s.FindMACEntry(anyMAC(g)) }
 
 //go:noinline
-func op_PrintTable(c *ctx, g *gctx) { c.s.PrintTable() }
+func body_PrintTable(c *ctx, g *gctx) { c.s.PrintTable() }
 
 //go:noinline
-func op_Capture(c *ctx, g *gctx) { _ = c.s.Capture(anyMAC(g)) }
+func body_Capture(c *ctx, g *gctx) { _ = c.s.Capture(anyMAC(g)) }
 
 //go:noinline
-func op_Release(c *ctx, g *gctx) { _ = c.s.Release(anyMAC(g)) }
+func body_Release(c *ctx, g *gctx) { _ = c.s.Release(anyMAC(g)) }
 
 //go:noinline
-func op_IsCaptured(c *ctx, g *gctx) { _ = c.s.IsCaptured(anyMAC(g)) }
+func body_IsCaptured(c *ctx, g *gctx) { _ = c.s.IsCaptured(anyMAC(g)) }
 
 //go:noinline
-func op_DHCPv4IPOffer(c *ctx, g *gctx) { _ = c.s.DHCPv4IPOffer(anyMAC(g)) }
+func body_DHCPv4IPOffer(c *ctx, g *gctx) { _ = c.s.DHCPv4IPOffer(anyMAC(g)) }
 
 //go:noinline
-func op_SetDHCPv4IPOffer(c *ctx, g *gctx) {
+func body_SetDHCPv4IPOffer(c *ctx, g *gctx) {
 	c.s.SetDHCPv4IPOffer(anyMAC(g), anyIP(g), packet.NameEntry{Type: "dhcp4", Name: "n" + strconv.Itoa(g.rng.Intn(3))})
 }
 
 //go:noinline
-func op_DHCPv4Update(c *ctx, g *gctx) {
+func body_DHCPv4Update(c *ctx, g *gctx) {
 	_ = c.s.DHCPv4Update(anyMAC(g), anyIP(g), packet.NameEntry{Type: "dhcp4", Name: "u" + strconv.Itoa(g.rng.Intn(3))})
 }
 
 //go:noinline
-func op_SessClose(c *ctx, g *gctx) {
+func body_SessClose(c *ctx, g *gctx) {
 	atomic.StoreInt32(&c.closed, 1)
 	c.s.Close()
 }
@@ -324,6 +324,15 @@ func childMain() {
 		for range c.s.C {
 		}
 	}()
+
+	// the recording connection is emptied regularly (the DHCP handler can emit bursts)
+	go func() {
+		for {
+			time.Sleep(50 * time.Millisecond)
+			c.conn.Take()
+		}
+	}()
+	base++
 
 	var stop int32
 	var wg sync.WaitGroup
@@ -402,7 +411,14 @@ func childMain() {
 	case <-time.After(8 * time.Second):
 		buf := make([]byte, 1<<20)
 		n := runtime.Stack(buf, true)
-		c.emit("key", "watchdog:operations-did-not-return", summarizeStacks(string(buf[:n])))
+		// a recovered panic inside the library may have left a lock held (the real program would have died)
+		panicked := false
+		seenPanic.Range(func(_, _ interface{}) bool { panicked = true; return false })
+		if panicked {
+			c.emit("key", "note:stuck-after-recovered-panic", summarizeStacks(string(buf[:n])))
+		} else {
+			c.emit("key", "watchdog:operations-did-not-return", summarizeStacks(string(buf[:n])))
+		}
 		c.emit("done", "", "")
 		res.Close()
 		os.Exit(3)
@@ -418,7 +434,7 @@ func childMain() {
 
 	// Close stops the background goroutines
 	closeHandlers(c)
-	if p, msg := lib.Catch(func() { c.s.Close() }); p {
+	if p, msg := lib.Catch(func() { op_SessClose(c, &gctx{rng: lib.NewRand(1)}) }); p {
 		c.emit("key", "panic:final-Close", msg)
 	}
 	deadline := time.Now().Add(4 * time.Second)
